@@ -272,7 +272,7 @@ class Prop:
                     'the is_ebgp argument is computed from the peer role in PeerSession::run_select; that one-line mapping is covered by a unit test in the repository '
                     '(received_from_external_peer_by_role), not by this correspondence run',
                     'PeerSession::rx_update (loop detection, default LOCAL_PREF injection, prefix limits) is abstracted to insert/remove per NLRI (Model/Validate.v apply_vmsg)']
-    assumptions = ['the families whose NLRI decoders are not modelled do not occur in the generated codecs',
+    assumptions = [
                    'syntax of AIGP, PREFIX_SID, BGP-LS and TUNNEL_ENCAP values is not judged (the receive path stores them as bytes)']
 
     def __init__(self):
@@ -345,6 +345,8 @@ class Prop:
         return hxpacket.run_both('C05', [self.case_to_val(c) for c in cases])
 
     def run_model(self, cases, tier):
+        from gen.c03 import _unlimit_stack
+        _unlimit_stack()
         pre = ('From RB Require Import Base.Val Base.Bytes Model.Stream Model.Wire Model.WireNlri Model.WireUpdate Model.WireMsg '
                'Spec.Rfc7606 Model.Validate.\nOpen Scope N_scope.')
         res, err = coqrun.eval_terms('C05', pre, [self.case_to_coq(c) for c in cases])
